@@ -26,6 +26,17 @@ def _expand(payload, sub):
     tables = PL.gen_tables(rng, big_p=0.2)
     stats = {}
     sc = PL.gen_pipeline(rng, tables, payload['nsteps'], stats=stats)
+    if len(tables) >= 2 and rng.random() < 0.3:
+        # steps with handlers of their own around key lookups (join): make sure they are not rare
+        try:
+            j = ST.gen_join(rng, ST.D(PL.describe(sc, {'calls': {}})), ST.G())
+            if j:
+                j['fields'] = {'jq%d' % i: v for i, (k, v) in enumerate(sorted(j['fields'].items()))}
+                trial = dict(sc, steps=sc['steps'] + [j])
+                PL.describe(trial, {'calls': {}})
+                sc['steps'] = trial['steps']
+        except Exception:  # noqa
+            pass
     sc['source_kinds'] = [rng.choice(['list', 'gen']) for _ in tables]
     # make sure something observable sits downstream most of the time
     if rng.random() < 0.6:
@@ -50,6 +61,8 @@ def gen_fault(rng, sc, K, kv_ops):
     nres = len(sc['tables'])
     exc = rng.choice(F.EXC_CLASSES)
     kinds = ['step', 'step', 'step', 'source', 'poison']
+    if any(sp['step'] in ('join', 'join_with_self') for sp in sc['steps']):
+        kinds += ['poison', 'poison']
     if any(len(t['rows']) > 100 for t in sc['tables']):
         kinds += ['source', 'source']
     if K > 0:
@@ -72,6 +85,19 @@ def gen_fault(rng, sc, K, kv_ops):
             f['call'] = rng.choice([0, 1, 3])
         return f
     if kind == 'poison':
+        if rng.random() < 0.5:
+            exc = rng.choice(F.HANDLED_CLASSES)
+        keyed = []
+        for i, sp in enumerate(sc['steps']):
+            if sp['step'] == 'join':
+                keyed += [(i, sp['target'], k) for k in sp['target_key']] + [(i, sp['source'], k) for k in sp['source_key']]
+            elif sp['step'] == 'join_with_self':
+                keyed += [(i, sp['resource'], k) for k in sp['key']]
+        if keyed and rng.random() < 0.8:
+            # the cell the step is about to use as a key (rendered, hashed, compared inside the step's own try blocks)
+            i, rn, k = rng.choice(keyed)
+            exc = rng.choice(['KeyError', 'KeyError', 'KeyError'] + F.HANDLED_CLASSES)      # a lookup miss is what such steps have handlers for
+            return {'kind': 'poison', 'pos': i, 'res': 0, 'res_name': rn, 'field_name': k, 'row': rng.choice([0, 0, 1, 2]), 'exc': exc}
         return {'kind': 'poison', 'pos': rng.randrange(n + 1), 'res': rng.randrange(nres), 'row': rng.choice([0, 0, 1, 2]), 'field': rng.randrange(4), 'exc': exc}
     if kind == 'source':
         ti = rng.randrange(nres)
@@ -228,7 +254,7 @@ class C04(Prop):
     REAL_VS_STUB = {'real': ['all dataflows code of the generated pipeline', 'parallelize.py under seam B'],
                     'stub': ['file-system seam (io.FileIO subclass, os wrappers)', 'KVFile twin (counts ops, raises sqlite3.OperationalError)', 'seam B twins for the parallelize pipelines']}
     PROBES = ['fault-not-reached', 'observer-after-failure', 'fault-in-package-phase', 'fault-at-exhaustion', 'fault-after-all', 'io-error-fired', 'kv-error-fired',
-              'source-raise-in-sample', 'source-raise-after-sample', 'parallelize-upstream-raise', 'parallelize-downstream-raise', 'prebuilt-processor-error', 'poison-fired', 'sweep-complete'] + ['in-failed-pipeline:' + k for k in sorted(ST.GENS)]
+              'source-raise-in-sample', 'source-raise-after-sample', 'parallelize-upstream-raise', 'parallelize-downstream-raise', 'prebuilt-processor-error', 'poison-fired', 'poison-on-a-key-cell', 'sweep-complete'] + ['in-failed-pipeline:' + k for k in sorted(ST.GENS)]
     TIERS = {'quick': dict(runs=900, wall=100, run_wall=300),
              'thorough': dict(runs=25000, wall=1700, run_wall=600)}
     SHRINK_FROZEN = ('fields', 'gen_stats')
@@ -290,11 +316,25 @@ class C04(Prop):
                         faults.append({'kind': 'step', 'pos': pos, 'phase': 'row', 'res': r_, 'row': row, 'exc': nxt()})
             for k in range(1, K + 1):
                 faults.append({'kind': 'io', 'k': k, 'errno': 'ENOSPC', 'frac': 0.0})
-            for k in range(1, kv_ops + 1):
+            kvs = list(range(1, kv_ops + 1))
+            if len(kvs) > 16:
+                # a join makes one KVFile op per row: first and last ones plus an evenly spaced sample
+                kvs = sorted(set(kvs[:4] + kvs[-4:] + kvs[::max(1, len(kvs) // 8)]))
+            for k in kvs:
                 faults.append({'kind': 'kv', 'k': k})
             for ti, t in enumerate(sc['tables']):
                 for after in sorted(set([0, len(t['rows']) // 2, len(t['rows'])])):
                     faults.append({'kind': 'source', 'res': ti, 'after': after, 'exc': nxt()})
+            for i, sp in enumerate(sc['steps']):
+                keyed = []
+                if sp['step'] == 'join':
+                    keyed = [(sp['target'], k) for k in sp['target_key']] + [(sp['source'], k) for k in sp['source_key']]
+                elif sp['step'] == 'join_with_self':
+                    keyed = [(sp['resource'], k) for k in sp['key']]
+                for rn, k in keyed:
+                    for row in (0, 1):
+                        for exc in ('KeyError', 'ValueError'):
+                            faults.append({'kind': 'poison', 'pos': i, 'res': 0, 'res_name': rn, 'field_name': k, 'row': row, 'exc': exc})
             ctx.extra['expanded'] = sc
             for fi, fault in enumerate(faults):
                 self._one_fault(dict(sc, fault=fault), base, fault, ctx, 'f%d' % fi)
@@ -344,6 +384,8 @@ class C04(Prop):
                 {'package': 'fault-in-package-phase', 'end': 'fault-at-exhaustion', 'after-all': 'fault-after-all'}[fault['phase']])
         elif fault['kind'] == 'poison':
             ctx.probe('poison-fired')
+            if fault.get('res_name'):
+                ctx.probe('poison-on-a-key-cell')
             # the step that touched the cell is at or after the planting position: artifacts strictly after the *end* cannot be attributed -> judged from the planting position
             hit, fail_pos = 'poison', len(steps)
         elif fault['kind'] == 'source':
